@@ -91,6 +91,12 @@ inductive Why where
   | notConnected    -- ConnectionException('Client is not connected')
   deriving DecidableEq, Repr, Inhabited
 
+/-- where the sending of a request fails: `framer.buildPacket(request)` raises (a field out of range:
+    struct.error) or `transport.write(packet)` raises -/
+inductive FailAt where
+  | encode | write
+  deriving DecidableEq, Repr, Inhabited
+
 inductive Event where
   /-- `transport.write` of the frame of request `id`, carrying transaction id `tid` -/
   | sent (id tid : Nat)
@@ -102,6 +108,8 @@ inductive Event where
   | exc (e : PyErr)
   /-- `transport.close()` was called (by `close()`, when the transport has such a method) -/
   | tclose
+  /-- `execute` raised to its caller because the request could not be sent; no deferred was returned -/
+  | sendFail (w : FailAt)
   deriving DecidableEq, Repr, Inhabited
 
 /-- Protocol + transaction manager state.  `pending` is `transaction.transactions`: for the dict manager the
@@ -235,6 +243,16 @@ def connectionLost (v : Variant) (s : State) : State × List Event :=
   let s1 := { s with connected := false }   -- self._connected = False
   lostLoop v (keys s1) s1                   -- for tid in list(self.transaction): ...
 
+/-- `execute(request)` whose sending fails:
+        request.transaction_id = self.transaction.getNextTID()      -- an id is consumed
+        packet = self.framer.buildPacket(request)                   -- raises (encode), or
+        self.transport.write(packet)                                -- raises (write): nothing reaches the peer
+        return self._buildResponse(request.transaction_id)          -- NOT reached: no deferred, table untouched
+    The exception escapes to the caller (independently of the connection flag: the flag is only looked at by
+    `_buildResponse`).  The call gets no request number: no deferred exists that could be named. -/
+def execFail (v : Variant) (s : State) (w : FailAt) : State × List Event :=
+  ({ s with tid := allocTid v s }, [.sendFail w])
+
 /-- `close()`: the pending deferreds are left alone -/
 def close (s : State) (hasClose : Bool) : State × List Event :=
   ({ s with connected := false }, if hasClose then [.tclose] else [])
@@ -246,6 +264,8 @@ inductive Op where
   | connectionLost
   /-- the application calls `close()`; `hasClose` = the transport object has an attribute `close` -/
   | close (hasClose : Bool)
+  /-- the application calls `execute` with a request whose sending fails -/
+  | execFail (w : FailAt)
   deriving DecidableEq, Repr, Inhabited
 
 def step (v : Variant) (s : State) : Op → State × List Event
@@ -254,6 +274,7 @@ def step (v : Variant) (s : State) : Op → State × List Event
   | .reply t tag => reply v s t tag
   | .connectionLost => connectionLost v s
   | .close hc => close s hc
+  | .execFail w => execFail v s w
 
 /-- a history of operations: final state and the whole event trace -/
 def run (v : Variant) (s : State) : List Op → State × List Event
@@ -365,6 +386,7 @@ def step (v : Variant) (s : State) : Op → State × List Event
   | .reply t tag => reply v s t tag
   | .connectionLost => connectionLost v s
   | .close hc => close s hc
+  | .execFail w => ({ s with tid := nextTid s.tid }, [.sendFail w])
 
 def run (v : Variant) (s : State) : List Op → State × List Event
   | [] => (s, [])
@@ -374,5 +396,30 @@ def run (v : Variant) (s : State) : List Op → State × List Event
     (q.1, p.2 ++ q.2)
 
 end Old
+
+/-! ### the mutant: the deferred is registered BEFORE the request is encoded and written -/
+namespace Orphan
+
+/-- `execute` with `_buildResponse(tid)` moved in front of `buildPacket` / `transport.write`: when the sending
+    fails the exception still escapes and no deferred is returned, but one has been created and registered – it
+    gets the next request number although nobody holds it -/
+def execFail (v : Variant) (s : State) (w : FailAt) : State × List Event :=
+  let tid := allocTid v s
+  let s1 := { s with tid := tid, nextId := s.nextId + 1 }
+  if s.connected then (add v s1 tid ⟨s.nextId, .plain⟩, [.sendFail w])
+  else (s1, [.sendFail w])
+
+def step (v : Variant) (s : State) : Op → State × List Event
+  | .execFail w => execFail v s w
+  | op => AsyncClient.step v s op
+
+def run (v : Variant) (s : State) : List Op → State × List Event
+  | [] => (s, [])
+  | op :: ops =>
+    let p := step v s op
+    let q := run v p.1 ops
+    (q.1, p.2 ++ q.2)
+
+end Orphan
 
 end Pymodbus.AsyncClient
